@@ -20,6 +20,22 @@
 (*             thousands of bits (exponent notation with long exponents)   *)
 (*             by the stride StrideBig                                     *)
 (*                                                                         *)
+(*   Long      (m * b^L + s)/q for L in LongLs (beyond 1000), m in {1,       *)
+(*             b - 1, 1000003}, s in {-1, 0, 1}, q in {1, 3, 7, 983}, b the  *)
+(*             base the value is printed in: the integer part is longer than *)
+(*             every built-in digit budget (6 digits, 1000 digits) in that   *)
+(*             base; integers, terminating and recurring fractions behind    *)
+(*             it.  EVERY digits mode, by the stride StrideLongInt (bases    *)
+(*             2, 4, 8, 16) / StrideLongSlow (the others).                   *)
+(*   Run       numerals printed ONE AFTER ANOTHER by the same worker: ten    *)
+(*             steps in rotating bases (2, 7, 10, 16, 36), five values of n  *)
+(*             digits then five of n + 1 digits in the base they are printed *)
+(*             in (lead * b^(len-1) + 1, lead in {1, b - 1}, optionally      *)
+(*             + 1/3), n in RunLens, every rotation; modes default,          *)
+(*             digits 3, full.  The law is per numeral (what is printed      *)
+(*             must not depend on what was printed before); the engine       *)
+(*             replays the steps of a run in order of `pos` in one process.  *)
+(*                                                                         *)
 (* The default mode is printed for every value; the other modes for the    *)
 (* values selected by a stride over a hash of the value (StrideCheap for   *)
 (* sci / eng / frac / digits 0, 1, 5; StrideMid for digits 50; StrideLong  *)
@@ -29,7 +45,8 @@
 (***************************************************************************)
 EXTENDS BigNum, TLC, Json
 
-CONSTANTS Bases, Seed, SmallMax, MaxK, StrideCheap, StrideMid, StrideLong, StrideNeg, BigKs, StrideBig
+CONSTANTS Bases, Seed, SmallMax, MaxK, StrideCheap, StrideMid, StrideLong, StrideNeg, BigKs, StrideBig,
+          LongBases, LongLs, StrideLongInt, StrideLongSlow, RunLens
 
 VARIABLE c
 
@@ -109,14 +126,41 @@ Big(b) ==
                        IF c.k <= 64 /\ c.j <= 50 THEN ModesFor(h)
                        ELSE {<<"default", 0>>} \cup (IF (h + Seed) % StrideCheap = 0 THEN {<<"sci", 0>>, <<"eng", 0>>} ELSE {}))
 
+\* Long: b^L is computed once per (base, L) in an intermediate state
+AllModes == {<<"default", 0>>, <<"digits", 50>>, <<"full", 0>>} \cup CheapModes
+LongB == /\ c.f = "init"
+         /\ \E b \in LongBases, L \in LongLs : c' = [f |-> "longB", b |-> b, L |-> L, bl |-> NPow(<<b>>, L)]
+Long ==
+  \E m \in {1, c.b - 1, 1000003}, s \in {-1, 0, 1}, q \in {1, 3, 7, 983} :
+    LET h == c.b + c.L * 3 + m * 7 + s * 5 + q IN
+    \* reading a thousand digits back costs the judge seconds unless the base is a power of two: those bases are sampled more thinly
+    /\ (h + Seed) % (IF c.b \in {2, 4, 8, 16} THEN StrideLongInt ELSE StrideLongSlow) = 0
+    /\ LET mb == NMul(c.bl, NFromInt(m))
+           num == IF s = 1 THEN NAddSmall(mb, 1) ELSE IF s = -1 THEN NSub(mb, <<1>>) ELSE mb
+       IN \E neg \in NegFor(h) : c' = CaseM("long", neg, num, NFromInt(q), c.b, AllModes)
+
+\* Run: step `pos` of the run <<n, rot, top, third>>
+RunBases == <<2, 7, 10, 16, 36>>
+RunModes == {<<"default", 0>>, <<"digits", 3>>, <<"full", 0>>}
+Run ==
+  \E n \in RunLens, rot \in 0..4, top \in BOOLEAN, third \in BOOLEAN, i \in 1..10 :
+    LET b == RunBases[((rot + i - 1) % 5) + 1]
+        len == IF i <= 5 THEN n ELSE n + 1
+        int == NAddSmall(NMulSmall(NPow(<<b>>, len - 1), IF top THEN b - 1 ELSE 1), 1)   \* len digits in base b
+    IN c' = [f |-> "run", p |-> Z(FALSE, IF third THEN NAddSmall(NMulSmall(int, 3), 1) ELSE int),
+             q |-> IF third THEN <<3>> ELSE <<1>>, base |-> b, modes |-> RunModes,
+             run |-> <<n, rot, top, third>>, pos |-> i]
+
 \* one action per family (the coverage gate of the engine wants each of them taken)
 GenSmall == c.f = "init" /\ \E b \in Bases : Small(b)
 GenBoundary == c.f = "init" /\ \E b \in Bases : Boundary(b)
 GenPeriod == c.f = "init" /\ \E b \in Bases : Period(b)
 GenMagnitude == c.f = "init" /\ \E b \in Bases : Magnitude(b)
 GenBig == c.f = "bigAC" /\ \E b \in Bases : Big(b)
-Next == GenSmall \/ GenBoundary \/ GenPeriod \/ GenMagnitude \/ BigA \/ BigAC \/ GenBig
+GenLong == c.f = "longB" /\ Long
+GenRun == c.f = "init" /\ Run
+Next == GenSmall \/ GenBoundary \/ GenPeriod \/ GenMagnitude \/ BigA \/ BigAC \/ GenBig \/ LongB \/ GenLong \/ GenRun
 Spec == Init /\ [][Next]_c
 
-Emit == c.f \notin {"init", "bigA", "bigAC"} => PrintT(<<"CASE", ToJson(c)>>)
+Emit == c.f \notin {"init", "bigA", "bigAC", "longB"} => PrintT(<<"CASE", ToJson(c)>>)
 =============================================================================
